@@ -122,13 +122,21 @@ class Sim:
             raise AnalysisError(f"{RULE}: method {cls.name}.{name} not found")
         return m
 
+    def step(self) -> None:
+        """Run exactly one queued job; whatever it produces stays queued behind the others."""
+        job = self.tasks.popleft()
+        self._run(job)
+
     def pump(self, limit: int = 400) -> None:
         n = 0
         while self.tasks:
             n += 1
             if n > limit:
                 raise Raised("NonTermination (message ping-pong)", ast.Constant(value=None))
-            job = self.tasks.popleft()
+            self._run(self.tasks.popleft())
+
+    def _run(self, job) -> None:
+        if True:
             if job[0] == "task":
                 self.hook.run_method(self.method(self.tcls, job[2]), job[1], [], {})
             elif job[0] == "data":
@@ -292,18 +300,10 @@ def run_life(rep: Report, prog: Program, tier: str) -> None:
         a, b = sim.pair()
         ch = sim.create(a, label="race")
         # let the OPEN go out and be processed, but close before the ACK is handled
-        while sim.tasks and not (sim.tasks[0][0] == "data" and sim.tasks[0][1] is a):
-            job = sim.tasks.popleft()
-            sim.tasks.appendleft(job)
-            one = deque([sim.tasks.popleft()])
-            keep, sim.tasks = sim.tasks, one
-            sim.pump()
-            # anything produced goes behind what was already queued
-            produced = list(sim.tasks)
-            sim.tasks = keep
-            sim.tasks.extend(produced)
-            if len(sim.tasks) > 50:
-                break
+        guard = 0
+        while sim.tasks and guard < 50 and not (sim.tasks[0][0] == "data" and sim.tasks[0][1] is a):
+            guard += 1
+            sim.step()
         sim.call(ch, "close")
         sim.pump()
         p = []
@@ -342,14 +342,9 @@ def run_life(rep: Report, prog: Program, tier: str) -> None:
         sim.call(x, "close")
         # run until the reset request has left but its response has not been handled yet
         guard = 0
-        while sim.tasks and sim.tasks[0][0] != "reconfig" and guard < 20:
+        while sim.tasks and guard < 20 and not (sim.tasks[0][0] == "reconfig" and sim.tasks[0][1] is a):
             guard += 1
-            one = deque([sim.tasks.popleft()])
-            keep, sim.tasks = sim.tasks, one
-            sim.pump()
-            produced = list(sim.tasks)
-            sim.tasks = keep
-            sim.tasks.extend(produced)
+            sim.step()
         sim.call(y, "close")
         sim.pump()
         p = []
@@ -361,6 +356,38 @@ def run_life(rep: Report, prog: Program, tier: str) -> None:
                 p.append(f"peer channel {sim.get(r, 'label')} is {sim.get(r, 'readyState')}")
         return p
     scenario("two overlapping close() calls on different channels", fn_overlap)
+
+    # 5b. the peer closes the channel from its datachannel handler and the ACK is lost / late: the reset reaches the opener while it is
+    #     still connecting; both ends must end up closed, and a late ACK must not reopen the channel
+    def fn_reset_while_connecting(sim: Sim, late_ack: bool = False) -> List[str]:
+        a, b = sim.pair()
+        ch = sim.create(a, label="early-reset")
+        # deliver the OPEN to B only
+        guard = 0
+        while sim.tasks and guard < 30 and not remote_of(sim, b):
+            guard += 1
+            sim.step()
+        if not remote_of(sim, b):
+            return ["the OPEN never reached the peer"]
+        r = remote_of(sim, b)[0]
+        # hold back the ACK that is on its way to A
+        held = [j for j in sim.tasks if j[0] == "data" and j[1] is a]
+        sim.tasks = deque(j for j in sim.tasks if not (j[0] == "data" and j[1] is a))
+        sim.call(r, "close")
+        sim.pump()
+        p = []
+        if late_ack:
+            sim.tasks.extend(held)
+            sim.pump()
+        if sim.get(ch, "readyState") != "closed":
+            p.append(f"opener's channel is {sim.get(ch, 'readyState')} after the peer closed it" + (" and the late ACK arrived" if late_ack else " (ACK lost)"))
+        if sim.get(r, "readyState") != "closed":
+            p.append(f"peer's channel is {sim.get(r, 'readyState')}")
+        if events_of(ch, "close") != 1:
+            p.append(f"opener got {events_of(ch, 'close')} close events")
+        return p
+    scenario("peer closes before the ACK arrives (ACK lost)", fn_reset_while_connecting)
+    scenario("peer closes before the ACK arrives (ACK arrives late)", lambda sim: fn_reset_while_connecting(sim, True))
 
     # 6. send() is refused unless open; state never moves backwards
     def fn_send_guard(sim: Sim) -> List[str]:
